@@ -114,6 +114,13 @@ class FillComputeSeq(lena_sequence.LenaSequence):
         # to do: do we check for exceptions like above
         # or skip like here?
         self._after = sequence.Sequence(*after)
+        # The inner sequences contain no elements that only set static
+        # context, and they have just set their own context to their elements.
+        # Set the context of the complete sequence again.
+        try:
+            self._set_context({})
+        except exceptions.LenaKeyError:
+            pass
 
     def fill(self, value):
         """Fill *self* with *value*.
